@@ -19,6 +19,18 @@ K2 = gen_bytes("manual-key-2", 32)
 SYMS = ["wd0", "wx0", "wd1", "wx1", "roA", "riA", "roB", "riB"] + ["m%s%s%d" % (p, d, k) for p in "AB" for d in "ir" for k in (1, 2)] + ["mAb1", "mBb1", "mAb2", "mBb2"]
 # m<party>b<k>: both directions in ONE rekey_manually(Some, Some) call (k=1: i:=K1, r:=K2; k=2: i:=K2, r:=K1)
 ONEWAY_SYMS = [i for i, s in enumerate(SYMS) if s not in ("wd1", "wx1")]
+NBASE = len(SYMS)
+# stateful only: rekey while the direction's counters are parked on 2^64-1, then move them to a fresh value
+# (prk<d>: sender rekeys outgoing AND receiver incoming; pro<d>: only the sender rekeys -> keys must disagree)
+SYMS += ["prk0", "prk1", "pro0", "pro1"]
+PARK_SYMS = [SYMS.index(x) for x in ("wd0", "wd1", "prk0", "prk1", "pro0", "pro1", "roA", "riB")]
+MAXN = 2**64 - 1
+
+
+def custom_rekey(k):
+    import hashlib
+
+    return hashlib.sha256(b"verif-rekey" + k).digest()
 
 
 class CheckC15(core.Check):
@@ -47,7 +59,7 @@ class CheckC15(core.Check):
                     if (ci, be, mode) == ("ChaChaPoly", "D", "tr"):
                         depth += 1
                     for ln in range(1, depth + 1):
-                        for seq in itertools.product(range(len(SYMS)), repeat=ln):
+                        for seq in itertools.product(range(NBASE), repeat=ln):
                             if not any(SYMS[i][0] in "rm" for i in seq) or not any(SYMS[i][0] == "w" for i in seq):
                                 continue
                             descs.append((ci, be, mode, ".".join(map(str, seq))))
@@ -57,9 +69,24 @@ class CheckC15(core.Check):
             seq = [rnd.randrange(len(SYMS)) if rnd.random() < 0.5 else rnd.randrange(4) for _ in range(ln)]
             descs.append((rnd.choice(CIPHERS), rnd.choice(["D", "R", "DR"]), rnd.choice(["tr", "sl", "mixA", "mixB"]), ".".join(map(str, seq))))
         # one endpoint stateless, the other stateful (mixA: initiator stateless; mixB: responder stateless)
+        # rekeys issued while a counter sits on 2^64-1 (stateful), exhaustively to length 3 over a small alphabet
+        for ci in CIPHERS:
+            for ln in range(2, 4):
+                for seq in itertools.product(PARK_SYMS, repeat=ln):
+                    if not any(SYMS[i][0] == "p" for i in seq) or not any(SYMS[i][0] == "w" for i in seq):
+                        continue
+                    descs.append((ci, "D", "tr", ".".join(map(str, seq))))
+        # a cipher that defines its own REKEY (resolver spec `+rk`): stateful, stateless and mixed must all use it
+        for ci in CIPHERS:
+            for mode in ("tr", "sl", "mixA", "mixB"):
+                for ln in range(1, 3 if quick else 4):
+                    for seq in itertools.product(range(8), repeat=ln):
+                        if not any(SYMS[i][0] == "r" for i in seq) or not any(SYMS[i][0] == "w" for i in seq):
+                            continue
+                        descs.append((ci, "D+rk", mode, ".".join(map(str, seq))))
         for mode in ("mixA", "mixB"):
             for ln in range(1, 4):
-                for seq in itertools.product(range(len(SYMS)), repeat=ln):
+                for seq in itertools.product(range(NBASE), repeat=ln):
                     if not any(SYMS[i][0] in "rm" for i in seq) or not any(SYMS[i][0] == "w" for i in seq):
                         continue
                     descs.append((rnd.choice(CIPHERS), "D", mode, ".".join(map(str, seq))))
@@ -80,7 +107,7 @@ class CheckC15(core.Check):
         parsed = parse_name_simple(name)
         keys = sessions.Keys(parsed, 15)
         c = Case("rk-%s-%s-%s-%s-%s" % (pat, ci, be, mode, seqs), desc)
-        sessions.add_pair(c, parsed, keys, res=(be, "D" if be == "D" else be), rng=("script:3", "script:4"), rec=("c", "c"))
+        sessions.add_pair(c, parsed, keys, res=(be, be), rng=("script:3", "script:4"), rec=("c", "c"))
         sessions.add_handshake(c, parsed, ["-"] * parsed.nmsgs)
         stp = {"A": mode in ("sl", "mixA"), "B": mode in ("sl", "mixB")}
         c.op("to_stateless" if stp["A"] else "to_transport", "A")
@@ -112,6 +139,22 @@ class CheckC15(core.Check):
             elif sym[0] == "r":
                 lab = c.op("rekey_out" if sym[1] == "o" else "rekey_in", sym[2])
                 steps.append((lab, sym[:2], sym[2], None, k))
+            elif sym[0] == "p":
+                d = int(sym[3])
+                if parsed.oneway and d == 1:
+                    continue
+                w, r = ("A", "B") if d == 0 else ("B", "A")
+                if stp[w] or stp[r]:
+                    continue  # counters exist only on stateful endpoints
+                v = 5000 + k
+                steps.append((c.op("set_tx_nonce", w, n=MAXN), "settx", w, MAXN, k))
+                steps.append((c.op("set_rx_nonce", r, n=MAXN), "setrx", r, MAXN, k))
+                steps.append((c.op("rekey_out", w), "ro", w, None, k))
+                if sym[2] == "k":
+                    steps.append((c.op("rekey_in", r), "ri", r, None, k))
+                steps.append((c.op("set_tx_nonce", w, n=v), "settx", w, v, k))
+                steps.append((c.op("set_rx_nonce", r, n=v), "setrx", r, v, k))
+                cnt[d] = v
             elif sym[2] == "b":
                 p = sym[1]
                 ki, kr = (K1, K2) if sym[3] == "1" else (K2, K1)
@@ -217,15 +260,22 @@ class CheckC15(core.Check):
                         r.stats["rejections_after_desync"] += 1
                         after += 1
             else:
-                rekeyed = True
-                r.stats["rekeys"] += 1
+                if kind not in ("settx", "setrx"):
+                    rekeyed = True
+                    r.stats["rekeys"] += 1
                 ini = p == "A"
-                if kind == "ro":
+                rk = custom_rekey if be.endswith("+rk") else (lambda kk: prims.rekey(ci, kk))
+                if kind == "settx":
+                    sn[p] = d
+                    cnt[0 if ini else 1] = d
+                elif kind == "setrx":
+                    rn[p] = d
+                elif kind == "ro":
                     dd = 0 if ini else 1
-                    key[p][dd] = prims.rekey(ci, key[p][dd])
+                    key[p][dd] = rk(key[p][dd])
                 elif kind == "ri":
                     dd = 1 if ini else 0
-                    key[p][dd] = prims.rekey(ci, key[p][dd])
+                    key[p][dd] = rk(key[p][dd])
                 elif kind == "mi":
                     key[p][0] = bytes.fromhex(d)
                 elif kind == "mb":
@@ -234,7 +284,8 @@ class CheckC15(core.Check):
                     key[p][1] = bytes.fromhex(kr)
                 else:
                     key[p][1] = bytes.fromhex(d)
-                last_rk = {"ro": "rekey_outgoing", "ri": "rekey_incoming", "mi": "manual-initiator-key", "mr": "manual-responder-key", "mb": "manual-both-keys"}[kind]
+                if kind not in ("settx", "setrx"):
+                    last_rk = {"ro": "rekey_outgoing", "ri": "rekey_incoming", "mi": "manual-initiator-key", "mr": "manual-responder-key", "mb": "manual-both-keys"}[kind]
             if not st[p]:
                 o = e.obs()
                 if o.get("sn") != str(sn[p]) or o.get("rn") != str(rn[p]):
